@@ -639,7 +639,10 @@ func main() {
 			}
 			return f, fc
 		}
-		same := func(got geojson.BBox) bool { return sameBBox(got, bb) }
+		// a list that is no RFC 7946 box (fewer than 4 numbers, an odd count) may come back as it is or not at all
+		same := func(got geojson.BBox) bool {
+			return sameBBox(got, bb) || (!(len(bb) >= 4 && len(bb)%2 == 0) && len(got) == 0)
+		}
 		// the helpers around the list: Valid = at least 4 numbers and an even count; Bound = first and middle pair (the
 		// zero bound when not valid); NewBBox(bound) = [min, max] and back
 		valid := len(bb) >= 4 && len(bb)%2 == 0
